@@ -19,6 +19,13 @@ ID = 'C14'
 DRIVER = 'drv_C14'
 PROOF_MODULES = ['OsloProofs.Props.C14']
 LEVEL = 'proof'
+RULE_EXTRA = (' Bounds (min_value/max_value/min_length/max_length) are ints, bools, floats (non-integral, tiny, 2**53 edge, '
+              'huge), Decimals and Fractions, compared exactly as rationals with values on both sides; -inf as minimum, +inf as '
+              'maximum and a float NaN exclude nothing (IEEE comparisons with NaN are false); +inf as minimum / -inf as maximum '
+              'exclude every integer, so ValueError is demanded (the code raises OverflowError: finding candidate C14-F3, as '
+              'is decimal.InvalidOperation for a Decimal NaN bound). Every public function is called in every legal form of '
+              'its pinned signature (each parameter positional / keyword / omitted when default, keyword order permuted); all '
+              'forms must give the result of the logical arguments.')
 RULE = ('per function, inputs built from its grammar: documented words x per-letter case x whitespace padding (runs of '
         '0,1,7,31,32,33,64,1000,70000 of every whitespace kind before/after/around/inside, word+gap+junk, junk+gap+word) and '
         'one-edit near-misses; integers at min/max and +-1 in int and str form with sign, whitespace, underscores, '
@@ -27,8 +34,9 @@ RULE = ('per function, inputs built from its grammar: documented words x per-let
         'compatibility forms, length-changing case maps, astral, BMP/UTF-8 width extremes, ZWJ/VS sequences, invisibles); '
         'hex strings of length 30..34 in plain/hyphenated/braced/urn:uuid: spelling x letter case, generate_uuid '
         'output, plus a separate malformed/arbitrary-text stream over the character domain. A case is distinct by '
-        '(function, value, settings) and non-trivial when the implementation accepts it (recognised word, int-like, '
+        '(function, value, settings, call form) and non-trivial when the implementation accepts it (recognised word, int-like, '
         'integer within bounds, length within active bounds, UUID) or when it comes from a near-miss/bound generator')
+RULE = RULE + RULE_EXTRA
 TRUSTED_BASE = [
     'Lean 4 kernel; axioms audited per theorem (subset of propext, Classical.choice, Quot.sound)',
     'hand-written model OsloModel/Scalars.lean, tied to strutils/uuidutils by this correspondence; the CPython '
@@ -732,6 +740,92 @@ BOUNDS = [None, 0, 1, -1, 5, -5, 10, 100, 255, 65535, 2 ** 31 - 1, -2 ** 31, 2 *
           2 ** 64, 10 ** 30]
 
 
+NUM_BOUNDS = [
+    BD('float', '7.5'), BD('float', '-6.5'), BD('float', '0.5'), BD('float', '-0.5'), BD('float', '1e-300'),
+    BD('float', '-1e-300'), BD('float', '5e-324'), BD('float', '0.1'), BD('float', '7.0'), BD('float', '-0.0'),
+    BD('float', '9007199254740992.0'), BD('float', '9007199254740994.0'), BD('float', '1e+22'), BD('float', '1e+308'),
+    BD('float', '-1e+308'), BD('float', '2.5'), BD('float', 'inf'), BD('float', '-inf'), BD('float', 'nan'),
+    BD('decimal', '7.5'), BD('decimal', '-6.5'), BD('decimal', '5.0'), BD('decimal', '0.1'), BD('decimal', '-0E-10'),
+    BD('decimal', '1E+400'), BD('decimal', '-1E-400'), BD('decimal', '2.50'), BD('decimal', 'Infinity'),
+    BD('decimal', '-Infinity'), BD('decimal', 'NaN'), BD('decimal', 'sNaN'),
+    BD('fraction', '5/2'), BD('fraction', '-13/2'), BD('fraction', '1/3'), BD('fraction', '7/1'), BD('fraction', '-1/1000'),
+    BD('fraction', '3000000000000000000000000000001/3'),
+    BD('bool', True), BD('bool', False),
+]
+
+
+def ints_around(b):
+    """the integers that straddle a bound"""
+    e = bound_exact(b)
+    if e[0] != 'fin':
+        return [0, 5, -5, 2 ** 70]
+    lo, hi = math.floor(e[1]), math.ceil(e[1])
+    return sorted(set([lo - 1, lo, hi, hi + 1]))
+
+
+def numeric_bound_cases(rng, quick):
+    """validate_integer with bounds of every numeric type the code compares, values on both sides of each"""
+    out = []
+    for b in NUM_BOUNDS:
+        for n in ints_around(b):
+            forms = [vint(n), vstr(text_of_int(n))] + ([] if quick else [vstr(decorate_int(rng, n, 'ws')),
+                                                                         vstr(decorate_int(rng, n, 'under'))])
+            for v in forms:
+                out.append((v, b, None, 'bound-type/%s/min' % b['t']))
+                out.append((v, None, b, 'bound-type/%s/max' % b['t']))
+            out.append((vint(n), b, b, 'bound-type/%s/both' % b['t']))
+            out.append((vint(n), n - 1, b, 'bound-type/%s/int-min' % b['t']))
+            out.append((vint(n), b, n + 1, 'bound-type/%s/int-max' % b['t']))
+            out.append((vint(n), rng.choice(NUM_BOUNDS), rng.choice(NUM_BOUNDS), 'bound-type/mixed'))
+    return out
+
+
+def numeric_length_bound_cases(rng, quick):
+    out = []
+    bounds = [b for b in NUM_BOUNDS if bound_exact(b)[0] != 'fin' or -3 <= bound_exact(b)[1] <= 12]
+    for b in bounds:
+        for n in ints_around(b):
+            if not (0 <= n <= 2000):
+                continue
+            text = 'a' * n if rng.random() < 0.5 else uni_text(rng, n)
+            out.append((vstr(text), b, None, 'bound-type/%s/min' % b['t']))
+            out.append((vstr(text), 0, b, 'bound-type/%s/max' % b['t']))
+            out.append((vstr(text), b, b, 'bound-type/%s/both' % b['t']))
+            out.append((vstr(text), rng.choice(bounds), rng.choice(bounds), 'bound-type/mixed'))
+    return out
+
+
+def gen_call_forms(rng, quick):
+    """every legal call form of the pinned signatures on a fixed set of logical arguments"""
+    out = []
+    lim = 14 if quick else None
+
+    def add(case):
+        for f in call_forms(case, rng, lim):
+            out.append((dict(case, form=f), 'form/%s/npos%d-kw%d' % (case['fn'], f['npos'], len(f['kw']))))
+    for v in [vstr('maybe'), vstr('yes'), vstr(' NO '), vstr(''), vstr('t'), V('bool', True), V('bool', False), V('none'),
+              vint(1), vint(7)]:
+        for strict in (False, True):
+            for d in ('sentinel', False, True, None):
+                add({'fn': 'bool', 'value': v, 'strict': strict, 'default': d})
+    for fn, vals in (('intbool', [vstr('on'), vstr('maybe'), V('bool', True)]),
+                     ('boolstr', [vstr('Off'), vstr(' off'), vint(1)]),
+                     ('intlike', [vstr('12'), vstr('012'), vint(5), V('none')]),
+                     ('uuid', [vstr('a' * 32), vstr('a' * 31), vint(5)])):
+        for v in vals:
+            add({'fn': fn, 'value': v})
+    vbounds = [(None, None), (7, None), (None, 6), (0, 10), (8, 9), (BD('float', '7.5'), None), (None, BD('decimal', '-6.5')),
+               (BD('fraction', '5/2'), 7)]
+    for v in [vint(7), vstr('7'), vstr(' -6 '), vstr('x'), V('float', '2.5'), vint(2)]:
+        for lo, hi in vbounds:
+            add({'fn': 'valint', 'value': v, 'min': lo, 'max': hi})
+    for v in [vstr('abc'), vstr(''), vint(3)]:
+        for name in (None, 'v'):
+            for lo, hi in [(0, None), (3, 3), (4, None), (0, 2), (0, 0), (1, None), (0, BD('float', '2.5'))]:
+                add({'fn': 'strlen', 'value': v, 'name': name, 'min': lo, 'max': hi})
+    return out
+
+
 def gen_int_values(rng, centre):
     """values around an integer: int form, canonical str form, decorated str forms, floats"""
     out = []
@@ -803,6 +897,7 @@ def gen_valint(rng, n, alphabet):
     for v, tag in long_int_values(rng, n < 50000):
         out.append((v, None, None, tag))
         out.append((v, rng.choice([0, -100, None]), rng.choice([100, 10 ** 30, None]), tag))
+    out += numeric_bound_cases(rng, n < 50000)
     for v in other_values(rng):
         out.append((v, rng.choice(BOUNDS), rng.choice(BOUNDS), 'nonstr/' + v['t']))
     while len(out) < n:
@@ -842,6 +937,7 @@ def gen_strlen(rng, n, alphabet):
             for ln in (b - 1, b, b + 1):
                 for lo, hi in ((b, None), (0, b), (b, b)):
                     out.append((vstr(uni_text(rng, ln, unit)), lo, hi, 'len-at-bound/unit'))
+    out += numeric_length_bound_cases(rng, n < 50000)
     for b in (1000, 70000):                           # no length is special: huge strings at huge and small bounds
         for ln in (b - 1, b, b + 1):
             for lo, hi in ((b, None), (0, b), (0, 255), (b, b)):
@@ -1004,11 +1100,12 @@ def gen_cases(ctx, alphabet):
         cases.append(({'fn': 'uuid', 'value': v}, tag))
     for c in gen_prims(rng, n // 2, alphabet):
         cases.append((c, 'prim'))
+    cases += gen_call_forms(rng, ctx.quick)
     return cases
 
 
 ACCEPT = {'bool': ('val:1', 'val:0'), 'boolstr': ('1',), 'intbool': ('1',), 'intlike': ('1',), 'uuid': ('1',)}
-NEAR_TAGS = ('long', 'near', 'bound', 'len-at-bound', 'word', 'limit', 'one-bad-char', 'scattered', 'odd', 'len3', 'str/', 'fixed', 'confusable')
+NEAR_TAGS = ('form', 'bound-type', 'long', 'near', 'bound', 'len-at-bound', 'word', 'limit', 'one-bad-char', 'scattered', 'odd', 'len3', 'str/', 'fixed', 'confusable')
 
 
 def is_nontrivial(case, tag, impl):
@@ -1233,8 +1330,9 @@ def check_case(case):
     want = model_view(case, expected(case))
     if got != want:
         args, kwargs = build_call(case)
-        shown = ', '.join(['<value>'] + [repr(a) for a in args[1:]] + ['%s=%r' % (k, v) for k, v in kwargs.items()
-                                                                    if k not in ('subject', 'value', 'val')])
+        first = SIGNATURES[fn][1][0]
+        shown = ', '.join((['<value>'] if args else []) + [repr(a) for a in args[1:]] +
+                          [('%s=<value>' % k) if k == first else '%s=%r' % (k, v) for k, v in kwargs.items()])
         return '%s(%s) with value %s gave %s, the property demands %s' % (
             SIGNATURES[fn][0], shown, short(case['value']), got, want)
     if fn == 'boolstr' and case['value']['t'] == 'str':
@@ -1282,6 +1380,14 @@ def relations(rng, n):
         for s in (u, p, u.upper(), '{' + u + '}', 'urn:uuid:' + u):
             if _call(like, s) is not True:
                 bad.append(({'fn': 'uuid', 'value': vstr(s)}, 'is_uuid_like rejects a spelling of generate_uuid output'))
+    dashed_re = re.compile(r'[0-9a-f]{8}-[0-9a-f]{4}-[0-9a-f]{4}-[0-9a-f]{4}-[0-9a-f]{12}\Z')
+    plain_re = re.compile(r'[0-9a-f]{32}\Z')
+    for a, k, want in (((), {}, dashed_re), ((True,), {}, dashed_re), ((), {'dashed': True}, dashed_re),
+                       ((False,), {}, plain_re), ((), {'dashed': False}, plain_re)):     # pinned: generate_uuid(dashed=True)
+        r = _call(gen, *a, **k)
+        if not isinstance(r, str) or not want.match(r):
+            bad.append(({'fn': 'uuid', 'value': vstr(r if isinstance(r, str) else '')},
+                        'generate_uuid(%s) produced %r' % (', '.join([repr(x) for x in a] + ['%s=%r' % kv for kv in k.items()]), r)))
     for b in (True, False):
         for strict in (True, False):
             if _call(bfs, b, strict=strict, default=SENTINEL) is not b:
@@ -1326,14 +1432,22 @@ def search(ctx, seeds, full=False):
         except Exception as e:       # the oracle itself must not hide anything
             why = 'oracle crashed: %r' % (e,)
         if why:
-            known = in_f2_class(case)
-            kind = ('C14-F2/' if known else '') + case['fn'] + ('/strict' if case.get('strict') else '')
+            known = 'C14-F2' if in_f2_class(case) else ('C14-F3' if in_f3_class(case) else None)
+            if known == 'C14-F3' and not f3_listed():
+                # reproduces on the unchanged tree but is not (yet) listed: reported in the evidence notes and by the
+                # builder, exercised by the correspondence (the model follows the code), never a VIOLATION by itself
+                if not seen_kinds.get('unlisted-F3'):
+                    seen_kinds['unlisted-F3'] = 1
+                    ctx.notes.append('finding candidate C14-F3 reproduces and is not listed in known_findings.json: ' + why)
+                ctx.count('search/unlisted-finding-candidate/C14-F3')
+                continue
+            kind = (known + '/' if known else '') + case['fn'] + ('/strict' if case.get('strict') else '') + \
+                ('/form' if case.get('form') else '')
             if seen_kinds.get(kind, 0) >= (1 if known else 2):
                 continue
             seen_kinds[kind] = seen_kinds.get(kind, 0) + 1
             small = case if known else shrink_case(case)
-            fails.append(Failure(small, {'kind': kind, 'what': check_case(small) or why},
-                                 klass='C14-F2' if known else None))
+            fails.append(Failure(small, {'kind': kind, 'what': check_case(small) or why}, klass=known))
             if len([f for f in fails if not f.klass]) >= 6:
                 break
     for case, why in relations(ctx.rng, 50 if ctx.quick else 2000):
@@ -1347,6 +1461,14 @@ def search(ctx, seeds, full=False):
 
 def classify(ctx, failure, listed):
     ids = set(f['id'] for f in listed)
+    if 'C14-F3' in ids and in_f3_class(failure.case) and not in_f2_class(failure.case):
+        if ctx.driver is not None:
+            try:
+                if model_view(failure.case, ctx.driver.ask(case_line(failure.case))) != run_impl(failure.case):
+                    return None
+            except Exception:
+                return None
+        return 'C14-F3'
     if 'C14-F2' in ids and in_f2_class(failure.case):
         # the model must reproduce the implementation's answer on it
         if ctx.driver is not None:
@@ -1365,14 +1487,14 @@ FN_ALIASES = {'bool_from_string': 'bool', 'is_valid_boolstr': 'boolstr', 'int_fr
 
 
 def witness_reproduces(ctx, finding):
-    if finding['id'] != 'C14-F2':
+    if finding['id'] not in ('C14-F2', 'C14-F3'):
         return False
     w = finding['witness']
     case = dict(w, fn=FN_ALIASES.get(w['fn'], w['fn']))
     case.setdefault('strict', False)
     case.setdefault('min', None)
     case.setdefault('max', None)
-    return check_case(case) is not None and in_f2_class(case)
+    return check_case(case) is not None and (in_f2_class(case) if finding['id'] == 'C14-F2' else in_f3_class(case))
 
 
 def replay(ctx, payload):
